@@ -127,6 +127,70 @@ fn optional_links(m: &Value) -> BTreeMap<String, bool> {
     out
 }
 
+/// Name of the element every link points to, keyed by "collection/name/link" (elements whose
+/// name is not unique in their collection are left out).
+fn named_links(m: &Value) -> BTreeMap<String, String> {
+    let mut out = BTreeMap::new();
+    let name_of = |coll: &[&str], id: &str| -> Option<String> {
+        closure::collection(m, coll)
+            .iter()
+            .find(|e| e.get("id").and_then(|v| v.as_str()) == Some(id))
+            .and_then(|e| e.get("name").and_then(|v| v.as_str()).map(|s| s.to_string()))
+    };
+    let mut add = |coll: &str, path: &[&str], links: &[(&str, &[&str])]| {
+        let els = closure::collection(m, path);
+        for e in els {
+            let name = e.get("name").and_then(|v| v.as_str()).unwrap_or("");
+            if els.iter().filter(|x| x.get("name").and_then(|v| v.as_str()) == Some(name)).count() != 1 {
+                continue;
+            }
+            for (l, target) in links {
+                if let Some(Value::String(id)) = e.get(*l) {
+                    if let Some(tn) = name_of(target, id) {
+                        out.insert(format!("{}/{}/{}", coll, name, l), tn);
+                    }
+                }
+            }
+        }
+    };
+    // by-name references only: wall -> space and window -> wall are positional in BDL (a block
+    // belongs to the SPACE / wall block it follows), so they legitimately follow a renamed or
+    // removed parent
+    add("walls", &["walls"], &[("cons", &["cons", "wallcons"]), ("next_to", &["spaces"])]);
+    add("windows", &["windows"], &[("cons", &["cons", "wincons"])]);
+    add("wincons", &["cons", "wincons"], &[("glass", &["cons", "glasses"]), ("frame", &["cons", "frames"])]);
+    add("spaces", &["spaces"], &[("loads", &["loads"]), ("thermostat", &["thermostats"])]);
+    out
+}
+
+thread_local! {
+    static BASE_NAMED: std::cell::RefCell<std::collections::HashMap<String, Option<BTreeMap<String, String>>>> = Default::default();
+}
+
+fn baseline_named_links(rel: &str) -> Option<BTreeMap<String, String>> {
+    if let Some(v) = BASE_NAMED.with(|b| b.borrow().get(rel).cloned()) {
+        return v;
+    }
+    let (kind, text) = text_of(rel);
+    let r = contain(|| match kind {
+        FileKind::Ctehexml => convert_ctehexml(&text, 1),
+        FileKind::Cte => convert_cte(&text),
+        _ => Err(anyhow::anyhow!("no model")),
+    });
+    let v = match r {
+        Ok(Ok(m)) => serde_json::to_value(&m).ok().map(|v| named_links(&v)),
+        _ => None,
+    };
+    BASE_NAMED.with(|b| {
+        let mut b = b.borrow_mut();
+        if b.len() > 8 {
+            b.clear();
+        }
+        b.insert(rel.to_string(), v.clone());
+    });
+    v
+}
+
 fn baseline_links(rel: &str) -> Option<BTreeMap<String, bool>> {
     if let Some(v) = BASELINES.with(|b| b.borrow().get(rel).cloned()) {
         return v;
@@ -409,10 +473,35 @@ pub fn run(ctx: &mut WorkerCtx, job: &Value) -> JobOutput {
                         }
                         None => vec![],
                     };
-                    (broken, warnings.len(), lost)
+                    // a name fault (definition renamed / removed, reference renamed) must never
+                    // make an untouched element point at a different-named target: that would be a
+                    // broken reference silently replaced by something else
+                    let retargeted: Vec<String> = if job["retarget_oracle"] == true {
+                        match baseline_named_links(&rel) {
+                            Some(base) => named_links(&v)
+                                .iter()
+                                .filter(|(k, tn)| base.get(*k).map(|b| b != *tn).unwrap_or(false))
+                                .map(|(k, tn)| format!("{} -> '{}' (intact: '{}')", k, tn, base[k]))
+                                .collect(),
+                            None => vec![],
+                        }
+                    } else {
+                        vec![]
+                    };
+                    (broken, warnings.len(), lost, retargeted)
                 });
                 match r {
-                    Ok((broken, nwarn, lost)) => {
+                    Ok((broken, nwarn, lost, retargeted)) => {
+                        result["retargeted"] = json!(retargeted.iter().take(4).collect::<Vec<_>>());
+                        result["retargeted_kinds"] = json!(retargeted
+                            .iter()
+                            .map(|k| {
+                                let mut it = k.split('/');
+                                let c = it.next().unwrap_or("");
+                                let l = k.split(" -> ").next().unwrap_or("").rsplit('/').next().unwrap_or("");
+                                format!("{}.{}", c, l)
+                            })
+                            .collect::<std::collections::BTreeSet<_>>());
                         result["broken_n"] = json!(broken.len());
                         result["broken"] = json!(broken
                             .iter()
